@@ -871,7 +871,8 @@ func (c *ctx) zkSpecial(g *zkGen, d *zkDef, k *zkKeys, t zkTriple, inst *zkInst)
 	r := g.r
 	switch d.name {
 	case "dec":
-		// a prover that skips its own EncWithNonce guard: mask above N/2 (verifier panics) and mask above 2^(l+eps) (accepted: no range check)
+		// a prover that skips its own EncWithNonce guard: mask above N/2 (rejected: not a plaintext; before the zk validation patch the
+		// verifier panicked) and mask above 2^(l+eps) (accepted: no l+eps range check)
 		w := inst.priv.(bigs)
 		for _, mc := range []struct {
 			name  string
@@ -885,7 +886,7 @@ func (c *ctx) zkSpecial(g *zkGen, d *zkDef, k *zkKeys, t zkTriple, inst *zkInst)
 			}
 			resp := sx.List(zs(bAdd(bMul(e.Z, w["y"]), mc.alpha), bAdd(bMul(e.Z, mu), nu), bMulMod(expIB(k.n1, w["rho"], e.Z), rr, k.n1))...)
 			gv, mv := c.zkCheck(d, k, mc.name, zkTriple{t.prefix, t.pub, com, resp}, expAny)
-			c.res.Note("zkdec.Verify has no range check on Z1: %s gives Go verdict %d, model verdict %d (1 accept, 2 EncWithNonce panic)", mc.name, gv, mv)
+			c.res.Note("zkdec.Verify has no l+eps range check on Z1 (only the plaintext range |Z1| <= N/2): %s gives Go verdict %d, model verdict %d (0 reject, 1 accept, 2 EncWithNonce panic)", mc.name, gv, mv)
 		}
 	case "mul":
 		w := inst.priv.(bigs)
@@ -904,7 +905,7 @@ func (c *ctx) zkSpecial(g *zkGen, d *zkDef, k *zkKeys, t zkTriple, inst *zkInst)
 			}
 			resp := sx.List(zs(bAdd(bMul(e.Z, w["x"]), mc.alpha), bMulMod(expIB(k.n1, w["rho"], e.Z), rr, k.n1), bMulMod(expIB(k.n1, w["rhox"], e.Z), ss, k.n1))...)
 			gv, mv := c.zkCheck(d, k, mc.name, zkTriple{t.prefix, t.pub, com, resp}, expAny)
-			c.res.Note("zkmul.Verify has no range check on Z: %s gives Go verdict %d, model verdict %d (1 accept, 2 EncWithNonce panic)", mc.name, gv, mv)
+			c.res.Note("zkmul.Verify has no l+eps range check on Z (only the plaintext range |Z| <= N/2): %s gives Go verdict %d, model verdict %d (0 reject, 1 accept, 2 EncWithNonce panic)", mc.name, gv, mv)
 		}
 	case "fac":
 		// Sigma is sent with the first message in the paper but is not hashed: (Sigma + d, V + d e) verifies as well
